@@ -72,6 +72,12 @@ pub fn sync_calls(hist: &History) -> BTreeMap<u16, Vec<SyncCall<'_>>> {
         let mut tag_channel: Vec<u16> = Vec::new();
         let mut cancelled: Vec<bool> = Vec::new();
         for o in ops {
+            if let Op::Consume { .. } = &o.op {
+                if !matches!(o.result, OpResult::Consumer { .. }) {
+                    tag_channel.push(o.ch_id);
+                    cancelled.push(true);
+                }
+            }
             if o.result == OpResult::Skipped {
                 continue;
             }
@@ -484,8 +490,11 @@ pub fn inbound_oracle(rep: &mut CaseReport, hist: &History, broker: &Broker) {
     for (_t, ops) in &threads {
         let mut tags: Vec<(u16, String)> = Vec::new();
         for o in ops {
-            if let OpResult::Consumer { tag } = &o.result {
-                tags.push((o.ch_id, tag.clone()));
+            if let Op::Consume { .. } = &o.op {
+                match &o.result {
+                    OpResult::Consumer { tag } => tags.push((o.ch_id, tag.clone())),
+                    _ => tags.push((o.ch_id, String::new())),
+                }
             }
             if let (Op::Drain { slot, max: None, .. }, OpResult::Drained { msgs, disconnected, .. }) = (&o.op, &o.result) {
                 if *slot >= tags.len() || !*disconnected {
